@@ -95,6 +95,8 @@ def main(prop, tier, seed):
         except Exception: rep.error('C02 nested_reach: ' + traceback.format_exc()[-1500:])
         from props import c02_fields
         c02_fields.safe(rep)
+        try: wrapper_must_reject(rep)
+        except Exception: rep.error('C02 wrapper_must_reject: ' + traceback.format_exc()[-1500:])
     if prop == 'C10':
         from props import errpath
         errpath.safe(errpath.add_finders, rep, 'C10.errpath')
@@ -201,6 +203,29 @@ def protocol_cache(rep):
                 replay=dict(reproduced=True, detail=p.stdout.strip()[-300:]), replay_script=f"import subprocess\nenv = dict(os.environ); env['PYTHONPATH'] = os.environ.get('VERIF_REPO', {REPO!r})\np = subprocess.run([sys.executable, '-c', {PROTO_SRC!r}], env=env, cwd='/')\nsys.exit(p.returncode)\n")
     rep.bounded.append(dict(kind='beartype.typing.Protocol: conforming objects after / next to checks against inheriting classes (bounded stand-in, NOT counted as proved)', scenarios=7, failing=int(p.returncode == 1)))
     rep.functions.append('beartype/typing/_typingpep544.py:_CachingProtocolMeta.__new__ (mode F: the per-class isinstance cache is a fresh table)')
+
+C02_SIGS = [[('po', False, False), ('vk', True, False)], [('va', False, False), ('vk', True, False)], [('po', False, False), ('pk', True, False), ('va', False, False), ('vk', True, False)],
+            [('po', True, False), ('po', False, True), ('ko', False, False), ('vk', True, False)]]
+def wrapper_must_reject(rep):
+    """C02 through a decorated callable (captured wrapper text, arbitrary args/kwargs): "rejected on every call": the original is called only after
+    EVERY value Python binds to an annotated parameter - whatever the call shape, incl. excess keywords named like a positional-only or variadic
+    parameter, which Python binds to **kwargs - was accepted by that parameter's check"""
+    sigs = C01_SIGS + C02_SIGS
+    with mp.get_context('fork').Pool(min(14, int(os.environ.get('VERIF_PROCS', '16')))) as pool:
+        recs = pool.map(_c01_wrap_worker, sigs)
+    n = 0
+    for rec in recs:
+        tag = f'C02.wrap[{rec.get("src", str(rec["sig"])).splitlines()[0][4:-1] if rec.get("src") else rec["sig"]}]'
+        if rec['error']: rep.error(f'{tag}: {rec["error"]}'); continue
+        for o in rec['obligations']:
+            if not o['name'].startswith(('post.b.', 'post.d.', 'post.return_checked')): continue
+            n += 1; rp = o.get('replay'); script = None
+            if rp and rp.get('reproduced'):
+                script = (f'from pyvc import wrapcheck\nok, d = wrapcheck.replay_c04({rec["sig"]!r}, True, "BeartypeConf()", {rp.get("args")!r}, {rp.get("kwargs")!r})\n'
+                          'print("REPRODUCED" if ok else "not reproduced", d)\nsys.exit(1 if ok else 0)\n')
+            rep.add(f'{tag}.{o["name"]}', o['status'], time=o.get('time'), backend=o.get('backend'), where=o.get('where'), replay=rp, solver_output=o.get('solver_output'), replay_script=script, bounded=True)
+    if not n: rep.error('C02 wrapper_must_reject: no obligation')
+    rep.functions.append('wrapper text generated for 14 signatures (mode G; shared with C01 / C03 / C04): the original is only called after every bound annotated value was accepted')
 
 def wrapper_no_false_alarm(rep):
     """C01 through a decorated callable (captured wrapper text, arbitrary args/kwargs): a parameter violation is only ever raised about a value
